@@ -20,7 +20,9 @@ def gen(rng, max_n=7, with_debug=True, with_setup=True, with_tags=True):
         preds = [j for j in range(i) if rng.random() < dens]
         specs.append(dict(preds=preds, prio=rng.choice([0, 1, 2, 3, -1, 5, -4, 10, 100]),
                           debug=with_debug and rng.random() < 0.25,
-                          setup=False, const=rng.random() < 0.25, tag=None))
+                          setup=False, const=rng.random() < 0.25, tag=None,
+                          idx=[p for p in preds if rng.random() < 0.3],     # predecessors used as result[0]
+                          ret_idx=rng.random() < 0.25))                    # returned as result[0]
     if rng.random() < 0.3 and n >= 4:   # diamond / shared descendants on purpose
         specs[n - 1]["preds"] = sorted(set(specs[n - 1]["preds"]) | {n - 2, n - 3})
         specs[n - 2]["preds"] = sorted(set(specs[n - 2]["preds"]) | {0})
@@ -62,19 +64,23 @@ def build(sc, inst=0, maxc=2):
     def describe():
         vals = []
         for i, s in enumerate(sc["specs"]):
-            args = [vals[j] for j in s["preds"]]
+            args = [(vals[j][0] if j in s.get("idx", []) else vals[j]) for j in s["preds"]]
             if s["const"]:
                 args.append(7)
             vals.append(nodes[i](*args))
-        return tuple(vals)
+        return tuple((v[0] if sc["specs"][i].get("ret_idx") else v) for i, v in enumerate(vals))
 
     describe.__qualname__ = describe.__name__ = "describe"
     return threadsafe_make_dag(describe, maxc, sc["is_async"]), nodes
 
 
-def extract(d):
-    """The real id-graph in recording order: (ids, preds as index lists, priorities, debug flags)."""
+def extract(d, toposort=False):
+    """The real id-graph in recording order: (ids, preds as index lists, priorities, debug flags).
+    toposort=True: list the ids in a topological order instead (composed DAGs keep no recording order)."""
     ids_ = list(d.exec_nodes.keys())
+    if toposort:
+        import networkx as _nx
+        ids_ = list(_nx.lexicographical_topological_sort(d.graph_ids, key=lambda x: ids_.index(x)))
     pos = {x: k for k, x in enumerate(ids_)}
     preds, topo_ok = [], True
     for x in ids_:
